@@ -100,7 +100,9 @@ CHECKS = {
     "C16": dict(level="exploration", parts=[
         dict(prop="REG", harness="api_pbt", quick=dict(count=0, workers=1), thorough=dict(count=0, workers=1)),  # regression scenarios
         dict(prop="C16", harness="api_pbt", quick=dict(count=1600, workers=8), thorough=dict(count=50000, workers=16),
-             essential=_ALL_SCHEMAS + ["on-disk", "in-memory", "files-compared", "track-with-performance-data"])]),
+             essential=_ALL_SCHEMAS + ["on-disk", "in-memory", "files-compared", "track-with-performance-data"]),
+        dict(prop="C16.table", harness="table_pbt", quick=dict(count=1200, workers=4), thorough=dict(count=40000, workers=16),
+             essential=_V2_SCHEMAS)]),
     "C02": dict(level="exploration", parts=[
         dict(prop="C02.enc", harness="codec_pbt", quick=dict(count=24000, workers=8), thorough=dict(count=2400000, workers=16),
              essential=_CODEC_ESS_KINDS + ["label=255", "payload>16KiB"]),
@@ -253,7 +255,10 @@ RULES = {
     "C16": "Case = schema + (on-disk or in-memory) + history as C10; then an observation phase: Obs twice and verify() twice. Four signals: "
            "the sqlite3_step shim saw no non-read-only statement, sqlite3_total_changes did not move, both Obs are equal, and for on-disk "
            "libraries a digest of every file in the database directory is unchanged by database_exists(), load_database(), Obs and verify() "
-           "on the reloaded library. Non-trivial = state has >=1 track and >=1 membership or nested crate.",
+           "on the reloaded library. table part: the same write monitor around every observing operation of the 2.x table API (track_table "
+           "get / get_<col> / all_ids / exists / find_id_by_path, playlist_table get / all_ids / child_ids / descendant_ids / exists / find_* / "
+           "root_ids, playlist_entity_table get / get_for_list / track_ids, information().get(), verify()) on generated rows and lists. "
+           "Non-trivial = state has >=1 track and >=1 membership or nested crate.",
     "C02": "Two generated campaigns over all 11 blob kinds. enc: a logical value (finite doubles, labels 0..255 bytes of arbitrary content, "
            "0..20 cue/loop entries, grids/waveforms of 0..60 entries plus 1024 and large sizes) is encoded by the library and decoded by "
            "refcodec (independent table-driven layout reader, one-shot zlib, verifies the length prefix and that the stream ends at the end "
